@@ -181,7 +181,7 @@ def gen_C01(rng, tier):
                         nexts.append('wu %d' % x)
                 nexts.append('wf')
                 for nx in nexts:
-                    ops = pre + [nx, 'wd', 'wb x%x %d' % (rng.getrandbits(64), rng.randrange(0, 65)), 'wf', 'wd', 'wf', 'wd']
+                    ops = pre + [nx, 'wd', 'wb x%x %d' % (rng.getrandbits(64), rng.randrange(0, 65)), rng.choice(['wf', 'wf', 'wdrop', 'winto']), 'wd', 'wf', 'wd']
                     lines.append('S e=%s ww=%d :: %s' % (e, W, ' ; '.join(ops)))
     # random histories
     nh = 1500 if quick else 40000
@@ -205,6 +205,8 @@ def gen_C01(rng, tier):
             else:
                 ops.append('wd')
         ops += ['wd', 'wf', 'wd', 'wf']
+        if rng.random() < 0.3:
+            ops += [rng.choice(['wdrop', 'winto']), 'wb x5 3', 'wd', rng.choice(['wdrop', 'winto'])]
         lines.append('S e=%s ww=%d%s :: %s' % (e, W, cap, ' ; '.join(ops)))
     return lines
 
